@@ -213,6 +213,46 @@ def sub_program(case):
         raise Violation("%s indexes outside an array: %s" % (desc, str(e)[:200]), signature=name + " out-of-bounds access")
     except Exception as e:  # noqa: BLE001
         raise Violation("%s raised %s: %s" % (desc, type(e).__name__, str(e)[:200]), signature=name + " raised")
+    if kind == "gu" and case.get("strided", True):
+        # third run: every array argument and every output row is a view with a non-unit stride into a larger buffer whose other
+        # cells hold guard values - reads must follow the stride (same result), writes must stay inside the row (guards intact)
+        def view(a, guard):
+            if not isinstance(a, np.ndarray) or a.ndim == 0 or a.shape[-1] < 1:
+                return a, None
+            buf = np.empty(a.shape[:-1] + (3 * a.shape[-1],), dtype=a.dtype)
+            buf[...] = guard
+            v = buf[..., 1::3]
+            v[...] = a
+            return v, buf
+
+        sins, sbufs = zip(*[view(a, np.roll(a, 1, axis=-1).repeat(3, axis=-1) if isinstance(a, np.ndarray) and a.ndim else 0) for a in ins])
+        def obuf(sh, d):
+            shp = (sh,) if isinstance(sh, int) else tuple(sh)
+            return np.full(shp[:-1] + (3 * shp[-1],) if shp else (), POISON[d][0], dtype=d)
+
+        obufs = [obuf(sh, d) for sh, d in outs]
+        oviews = tuple(b[..., 1::3] if b.ndim else b for b in obufs)
+        keep_in = [None if b is None else b.copy() for b in sbufs]
+        try:
+            with warnings.catch_warnings():
+                warnings.simplefilter("ignore")
+                k(*sins, out=oviews if len(oviews) > 1 else oviews[0])
+        except IndexError as e:
+            raise Violation("%s with strided arguments indexes outside an array: %s" % (desc, str(e)[:200]), signature=name + " out-of-bounds access")
+        except Exception as e:  # noqa: BLE001
+            raise Violation("%s with strided arguments raised %s: %s" % (desc, type(e).__name__, str(e)[:200]), signature=name + " raised")
+        for b, kb in zip(sbufs, keep_in):
+            if b is not None:
+                req(_eq(b, kb), "%s modified the buffer behind a strided input view" % desc, name + " modified input")
+        for b, v, a, (sh, d) in zip(obufs, oviews, results[0], outs):
+            if b.ndim:
+                guard = np.ones(b.shape, dtype=bool)
+                guard[..., 1::3] = False
+                req(bool((b[guard] == np.array(POISON[d][0], dtype=d)).all()),
+                    "%s writes outside a strided out= row: %d guard cells between the row's cells were overwritten" % (
+                        desc, int((b[guard] != np.array(POISON[d][0], dtype=d)).sum())), name + " writes outside the output row")
+            req(_eq(np.array(v), np.asarray(a)), "%s: result through strided views differs from the contiguous call (cells read or written "
+                "at the wrong stride): %s vs %s" % (desc, fmt(np.asarray(v), 12), fmt(np.asarray(a), 12)), name + " ignores array strides")
     for a, b in zip(results[0], results[1]):
         req(_eq(a, b), "%s: two runs give different results (an output element is not written, or depends on stale memory): %s vs %s" % (
             desc, fmt(a, 12), fmt(b, 12)), name + " non-deterministic / unwritten output")
@@ -253,7 +293,18 @@ def bcase(draw, name, boundary):
         n = max(n, 5)
     if name.startswith("autocorr."):
         n = max(n, 2)
-    y = draw(st.lists(st.integers(1, 3000), min_size=n, max_size=n))
+    # degenerate data are boundary input as well: flat and exactly linear pixels take the zero-residual paths of the kernels
+    ykind = draw(st.sampled_from(["random", "random", "constant", "linear", "two_levels"]))
+    if ykind == "constant":
+        y = [draw(st.integers(1, 3000))] * n
+    elif ykind == "linear":
+        a, b = draw(st.integers(1, 40)), draw(st.integers(1, 1500))
+        y = [b + a * t for t in range(n)]
+    elif ykind == "two_levels":
+        lv = [draw(st.integers(1, 3000)), draw(st.integers(1, 3000))]
+        y = [lv[draw(st.integers(0, 9)) == 0] for _ in range(n)]
+    else:
+        y = draw(st.lists(st.integers(1, 3000), min_size=n, max_size=n))
     vkind = draw(st.sampled_from(["all", "all", "none", "one", "two", "random"]))
     if vkind == "all":
         valid = [True] * n
@@ -288,7 +339,7 @@ def bcase(draw, name, boundary):
             "groups": groups, "gk": gk, "window": draw(st.sampled_from([1, n, max(1, n // 2)])), "cal": [c0, c1], "grid": [r, c], "nz": nz,
             "znd": draw(st.sampled_from([-1, nz - 1, 255])), "s": 10 ** draw(st.floats(-3, 0.3)), "mk_s": draw(st.integers(-5, 5)), "mk_v": draw(st.integers(1, 50)),
             "mk_z": draw(st.floats(-4, 4)), "gap": draw(st.sampled_from([1, 2, 5])), "tail": draw(st.integers(0, 3)), "lead": draw(st.integers(0, 3)),
-            "per": draw(st.sampled_from([1, 2, 10])), "boundary": boundary}
+            "per": draw(st.sampled_from([1, 2, 10])), "boundary": boundary, "ykind": ykind}
 
 
 def run(ctx):
@@ -318,6 +369,6 @@ def run(ctx):
             if why:
                 rec.discard("program", why)
             rec.case("program", case, nontrivial=case["boundary"] and why is None,
-                     cls=["prog:" + name, "n=%d" % min(len(case["y"]), 6), "valid:" + case["vkind"], "boundary" if case["boundary"] else "random"])
+                     cls=["prog:" + name, "n=%d" % min(len(case["y"]), 6), "valid:" + case["vkind"], "y:" + case.get("ykind", "random"), "boundary" if case["boundary"] else "random"])
         ctx.given("program", bcase(name, True), ctx.n(25, 250), fn=f, shrink=False)
         ctx.given("program", bcase(name, False), ctx.n(8, 120), fn=f, shrink=False)
